@@ -2,6 +2,7 @@
 package mon
 
 import (
+	"runtime/debug"
 	"os"
 	"strconv"
 	"encoding/json"
@@ -126,3 +127,5 @@ func skip(cfg *lib.Cfg, idx int) bool {
 	}
 	return replay.set && (cfg.Name != replay.Cfg || idx != replay.Index)
 }
+
+func stackString() string { return string(debug.Stack()) }
